@@ -24,6 +24,7 @@ def run(rep, tier, seed, replay):
     for r in rejections:
         if r["run_head"].get("p") == "unsafe":
             rep.violation({"check": "trace-rejected", "proto": "unsafe", "op": r["event"].get("op", "")}, r)
+    sk = rt.skip_trace_check(rep, tier, seed + 100, vsets=("universe",))
     import json
     for r in crashed:
         h = json.loads(r[0])
@@ -40,6 +41,7 @@ def run(rep, tier, seed, replay):
         "rule": "vectors as in C01 restricted to the unchecked codec; trace validation binds verif_cursor() (index, buffer length, "
                 "remaining input) after every call to spec/UnsafeProto.tla (InBounds: index + n <= buflen before every store/load)",
         "sets": stats, "trace": {"events_validated": events, "runs_validated": runs, "rejections": len(rejections)},
+        "iterative_skipper_trace": {k: v for k, v in sk.items()},
         "exhaustive": False,
     }
     rep.assumptions = ["memory safety as such is not decided (DESIGN.md 7): an out-of-bounds access that does not show in the cursor, "
